@@ -46,7 +46,9 @@ def generate(ctx, r, idx, build_only=False):
                     break
             else:
                 h["input"] = r.choice(bins)
-    elif kind == "fea":
+    if kind == "subset":
+        h["recalc_bounds"] = r.random() < 0.5
+    if kind == "fea":
         feas = corpus.fea_files()
         h["input"] = feas[idx % len(feas)] if build_only else r.choice(feas)
         h["level"] = r.choice([0, 0, 5, 9])
@@ -230,6 +232,8 @@ def run_pipe(h, scratch):
         go = probe.getGlyphOrder()
         keep = [g for g in go if r.random() < 0.6] or go[:1]
         args = [src, "--output-file=" + o, "--glyphs=" + ",".join(keep[:400]), "--no-recalc-timestamp", "--notdef-outline"]
+        if h.get("recalc_bounds"):
+            args.append("--recalc-bounds")
         for opt in ("--layout-features=*", "--retain-gids", "--glyph-names", "--name-IDs=*", "--no-hinting", "--desubroutinize", "--passthrough-tables", "--recommended-glyphs", "--drop-tables+=DSIG", "--legacy-kern", "--symbol-cmap"):
             if r.random() < 0.3:
                 args.append(opt)
